@@ -7,7 +7,8 @@ import sys
 VERIF = os.path.dirname(os.path.dirname(os.path.abspath(__file__)))
 sys.path.insert(0, VERIF)
 
-COMMON_NOTE = ("Trusted base: Linux kernel + glibc answers for every call that is not an injected fault; gcc; objcopy symbol renaming; "
+COMMON_NOTE = ("Modelled parts and how they are bound to the implementation: serialised scheduling / virtual clock / emulated exec are re-run against "
+               "free-running, real-clock and real-exec executions of the same configurations (DESIGN.md 8.1; counts in the evidence). Trusted base: Linux kernel + glibc answers for every call that is not an injected fault; gcc; objcopy symbol renaming; "
                "the harness code in /verif (vk wrappers, scripted helper, oracles). Scheduling granularity is the intercepted libc call; "
                "the scripted child never touches the exit descriptor. POSIX sources only.")
 
